@@ -602,11 +602,14 @@ func (f *frame) appendBuiltin(x ssa.CallInstruction, args []Val, st State, reach
 			tArr := c.bind("atarr", as, c.sel(E, t[0]))
 			tl, to := t[2], t[1]
 			def := func(i string) string {
-				return ite(and(le(end, i), lt(i, add(end, tl))), sel(tArr, add(to, sub(i, end))), sel(srcArr, i))
+				return ite(and(le(end, i), lt(i, add(end, tl))), c.sel(tArr, addOff(to, sub0(i, end))), c.sel(srcArr, i))
 			}
 			c.lazyArr[newArr] = def
 			if c.quant {
-				c.assume(reach, fmt.Sprintf("(forall ((%s Int)) (! %s :pattern ((select %s %s))))", q, eq(sel(newArr, q), def(q)), newArr, q))
+				c.noBind++
+				dq := def(q)
+				c.noBind--
+				c.assume(reach, fmt.Sprintf("(forall ((%s Int)) (! %s :pattern ((select %s %s))))", q, eq(sel(newArr, q), dq), newArr, q))
 				c.stats.quantified++
 			}
 		}
@@ -677,11 +680,14 @@ func (f *frame) copyBuiltin(x ssa.CallInstruction, args []Val, st State, reach s
 			q := c.qvar()
 			do := d[1]
 			def := func(i string) string {
-				return ite(and(le(do, i), lt(i, add(do, n))), srcAt(sub0(i, do)), sel(dArrB, i))
+				return ite(and(le(do, i), lt(i, add(do, n))), srcAt(sub0(i, do)), c.sel(dArrB, i))
 			}
 			c.lazyArr[newArr] = def
 			if c.quant {
-				c.assume(reach, fmt.Sprintf("(forall ((%s Int)) (! %s :pattern ((select %s %s))))", q, eq(sel(newArr, q), def(q)), newArr, q))
+				c.noBind++
+				dq := def(q)
+				c.noBind--
+				c.assume(reach, fmt.Sprintf("(forall ((%s Int)) (! %s :pattern ((select %s %s))))", q, eq(sel(newArr, q), dq), newArr, q))
 				c.stats.quantified++
 			}
 		}
